@@ -421,7 +421,13 @@ func vRunC13(c *vCase) {
 	// the record is analysed alone, or as one of a batch (a block with several triggers): nothing of the other records of
 	// the call may leak into its values
 	batch := []*DataRecord{rec}
-	if k := r.Intn(4); k > 0 {
+	k := r.Intn(4)
+	if n <= 300 && vChance(r, 0.1) {
+		// a long list (a burst of triggers, or short records in a long block): 33-160 records in one call
+		k = 32 + r.Intn(128)
+		c.Cov("records_analysed_in_a_long_list", 1)
+	}
+	if k > 0 {
 		pos := r.Intn(k + 1)
 		batch = nil
 		for i := 0; i <= k; i++ {
